@@ -170,3 +170,14 @@ func vrtWire(id uint16, tag uint16) []byte {
 
 func vrtWireID(m []byte) uint16  { return uint16(m[0])<<8 | uint16(m[1]) }
 func vrtWireTag(m []byte) uint16 { return uint16(m[12])<<8 | uint16(m[13]) }
+
+// vrtSetCounter sets a wire-ID counter of whatever unsigned width to v, or to v below the
+// maximum of its type (the state after an arbitrary number of earlier queries, whatever the
+// counter's representation).
+func vrtSetCounter[T ~uint16 | ~uint32 | ~uint64](p *T, v uint16, fromTop bool) {
+	if fromTop {
+		*p = ^T(0) - T(v)
+	} else {
+		*p = T(v)
+	}
+}
